@@ -51,7 +51,7 @@ func c01Run(c c01Case) Verdict {
 	w.SendCuts(stream, c.Cuts)
 	_, fin := w.Finish()
 	if !fin {
-		return Verdict{Inconclusive: "watchdog while finishing"}
+		return finishFail(w)
 	}
 	bareCR, bareLF := hasBareCRLF(c.Body)
 	v := Verdict{}
